@@ -212,10 +212,10 @@ func compactOnce(cfg Config, readers []*Reader, first, last int, exp *LogExpirat
 	return out, buf.Bytes()
 }
 
-func compactionHarness(k int, rich bool, nested bool, exactChoices int) {
+func compactionHarness(k int, rich bool, nested bool, exactChoices int, hashChoices int) {
 	cfg := Config{BlockSize: 256, ExactLogMessage: VerifChoose(exactChoices) == 1, HashID: SHA1ID}
 	hs := 20
-	if VerifChoose(1+VerifTier()) == 1 {
+	if VerifChoose(hashChoices) == 1 {
 		cfg.HashID = SHA256ID
 		hs = 32
 	}
@@ -256,12 +256,12 @@ func compactionHarness(k int, rich bool, nested bool, exactChoices int) {
 // Harness_C07_pairs: compacting any range of a 2-table stack leaves refs and reflogs unchanged.
 // bounds: 2 tables; refs over {a,b}: a in {absent,value,deletion,symref/peeled}, b in {absent,value}; logs: a in {absent,entry@1,entry@2,deletion@1}, b in {absent,entry@1}; value bytes symbolic; every range [first,last]; ExactLogMessage both, HashID sha1 (thorough: sha256 too)
 // covers: done
-func Harness_C07_pairs() { compactionHarness(2, true, false, 2) }
+func Harness_C07_pairs() { compactionHarness(2, true, false, 2, 1+VerifTier()) }
 
 // Harness_C07_triples: 3-table stacks (tombstones above and below the compacted range), every range, then a second compaction of every range of the result.
-// bounds: 3 tables over the single name a: ref in {absent,value,deletion,symref/peeled}, log in {absent,entry@1,entry@2,deletion@1}; every range; thorough: nested second compaction of every range of the result, ExactLogMessage, sha256
+// bounds: 3 tables over the single name a: ref in {absent,value,deletion,symref/peeled}, log in {absent,entry@1,entry@2,deletion@1}; every range; thorough: nested second compaction of every range of the result
 // covers: done
-func Harness_C07_triples() { compactionHarness(3, false, VerifTier() > 0, 1+VerifTier()) }
+func Harness_C07_triples() { compactionHarness(3, false, VerifTier() > 0, 1, 1) }
 
 // ---------- C13 reflog expiry ----------
 
